@@ -37,6 +37,90 @@ CHECKS = {
             "of a Process event's outcome between trigger and processing is checked by the monitor, not proved (it is false under a "
             "manual succeed() on a live process); condition values are C05's subject.",
             "DESIGN.md section 4 C02, section 8"),
+    "C04": ("34 theorems (Props/C04.v) about call_interrupt/do_interruption/resume_loop/run_callbacks/step of Kernel/Model.v, for all code "
+            "tables and all states reachable by module-level code, run() preludes and clean steps: interrupt on a dead process "
+            "(generator ended, termination event processed or not) or on oneself returns RuntimeError and changes nothing, for ever "
+            "after the end; an accepted interrupt adds exactly one Interruption event (failed with Interrupt(cause), defused) with one "
+            "URGENT entry due now; while it is pending the clock cannot move and no NORMAL entry and no later-issued interruption is "
+            "processed before it; the step processing it removes the victim's _resume from its unique waiter list and resumes the victim "
+            "with Interrupt(cause), or does nothing if the victim has ended; afterwards the old target keeps outcome/defusal/other "
+            "callbacks, an event resumes only processes whose current target it is, a re-yield continues at once or waits again; an "
+            "interruption aimed at p is never the agenda minimum before p's Initialize is processed, and the first resumption sends None. "
+            "Model compared trace by trace with the real kernel on ~600 (quick) / 15000 (thorough) script families (55% shaped).",
+            "Full. Executions are followed up to the first step whose callback loop is left by an escaping exception or out-of-fuel; "
+            "interrupt_delivery assumes the victim was not made to wait for the Interruption event aimed at itself (forged id, impossible "
+            "through the API). RBroken is excluded, not proved unreachable. Model = repaired kernel (bd0bcc6).",
+            "DESIGN.md section 4 C04, section 8"),
+    "C05": ("23 theorems (Props/C05.v) about Kernel/Model.v for all programs and all executions: a state invariant on every reachable state "
+            "incl. mid-step states (C05_invariant); the trigger characterisation of every completed step for every pending condition "
+            "(C05_cond_step with corollaries never_earlier, any_of_first, all_of_last); construction (empty operand list / any_of / "
+            "all_of with already processed operands / non-event operand refused); exact value = the leaves processed at the moment the "
+            "condition itself is popped (C05_value_exact, the gap between trigger and processing); operand failure forwarded and "
+            "defused; late operands ignored and late failures surfacing; outcome final; _build_value never broken. Compared with the "
+            "real kernel on 700 (quick) / 16000 (thorough) script executions plus 38 direct checks (lazy iterables, mixed environments, "
+            "late failures) per run.",
+            "PARTIAL: mixed_env_refused is checked by direct calls, not proved (the model has one environment); the step theorems "
+            "assume the condition is not detached by an already processed enclosing condition — the code violates the property there "
+            "(KNOWN FINDING nested-cond-detached: _remove_check_callbacks of an enclosing condition removes a still pending nested "
+            "condition's own _check, so it never triggers; upstream SimPy behaviour, repair not small; refutation "
+            "C05_all_of_refuted_when_detached); no explicit succeed/fail on the condition object; exception equality for Process "
+            "operands modulo overwrite by misuse.",
+            "DESIGN.md section 4 C05, section 8"),
+    "C08": ("Per element X in {Wire/Cable, Port/REDPort, TokenBucket/TwoRateTokenBucket, SP/RR/WRR, DRR, WFQ/VirtualClock}: X_conserves "
+            "(packets put in = forwarded ++ dropped-by-the-documented-rule ++ held, as lists/permutations of the very packet records), "
+            "X_flow_fifo, X_drained (and never-raises where applicable), for all parameterisations and all admissible executions "
+            "(Props/C08_Wire.v, C08_Port.v, C08_Bucket.v, C08_MQ.v, C08_DRR.v, C08_WFQ.v); C08_generator_law and "
+            "C08_generator_until_finish (DistPacketGenerator), C08_sink_books (PacketSink) (Props/C08_GenSink.v); C08_network_conserves / "
+            "C08_network_quiescent: for ANY finite wiring of conserving elements, injected = delivered + dropped + held "
+            "(Props/C08_Net.v). 44 theorems. Every element model is replayed against the real class (500 quick / 12000 thorough cases over "
+            "all parts) and random pipelines generator -> 1-3 real elements -> per-flow sinks are run to quiescence under a conservation monitor.",
+            "Demultiplexers/switches are covered by C18's exactly-one-output theorems (their conservation is that statement) and by the "
+            "pipeline monitor, not by a separate C08 theorem. Pipelines have no composite Coq model: the proof side is the composition "
+            "theorem applied to the per-element theorems; the wiring hypotheses (every forwarded packet goes to exactly one place) are "
+            "checked on the real pipelines by taps. Repairs are listed under the elements' own properties.",
+            "DESIGN.md section 4 C08, section 8"),
+    "C11": ("21 theorems (Props/C11.v): TokenBucket executions are the (rate, B, peak) recurrence: head = max(arrival, previous departure), "
+            "debit at the least instant the bucket holds the size (uncapped only for packets > B), departure = debit + 8*size/peak, "
+            "conformance sum(size_i..j) <= max(B,size_i) + rate*(t_j-t_i)/8 for all i<=j, peak spacing, FIFO, lossless. "
+            "TwoRateTokenBucket: recurrence, colour iff, shaping against (PIR,PBS) or (CIR,CBS), green bytes over any window <= "
+            "CBS + CIR*dt/8. Four refuted_before_fix theorems replay the code as found. Correspondence on 400 (quick) / 10000 (thorough) "
+            "generated executions plus corpus cases per run.",
+            "Full after 6 fix: commits (4c0da79, 639ce2f, 052c26e, c4573fa, 6272f57, 165a670). Hypotheses: rate/CIR/PIR > 0. The "
+            "two-rate marker is read as RFC 2698 colour-blind marking plus shaping on the peak bucket (repairs 052c26e and c4573fa rest on "
+            "that reading).",
+            "DESIGN.md section 4 C11, section 8"),
+    "C12": ("For each of SP, RR, WRR (Props/C12_MQ.v, 24 theorems), DRR (Props/C12_DRR.v, 8) and WFQ, VirtualClock (Props/C12_WFQ.v, 16): "
+            "work-conserving (when the clock may move, a transmission is in progress or nothing is held; via the no-lost-wake-up "
+            "invariant), one at a time and never aborted, transmission time exactly 8*size/rate, back-to-back, per-flow FIFO, exactly "
+            "once (also for several flows mapped onto one class where the scheduler takes a class map), per-flow counters = packets/bytes "
+            "waiting or in transmission, run() never spins, Monitor samples with the packet in service included or excluded. All "
+            "parameter tables, rates > 0, all admissible executions. Models replayed against the six real schedulers and the Monitor on "
+            "360 (quick) / 9000 (thorough) executions per run, incl. two instances in one Environment.",
+            "Full. 'Eventually transmitted' is carried by work conservation + drained + admissibility, not by a separate liveness "
+            "theorem. Repairs: 97deeee (Monitor), b2bc02b (DRR class map), d0d3d61 (WFQ class count), 0e96376 (SP), and the SP class map "
+            "(see known_findings.json).",
+            "DESIGN.md section 4 C12, section 8"),
+    "C14": ("17 theorems (Props/C14.v): WFQ stamp recurrence incl. the first packet of a busy period; virtual-time growth, active set, reset "
+            "on empty; VirtualClock stamp; every transmission start takes the strictly least (stamp, arrival instant, arrival counter) "
+            "selected in that instant; keys of every reachable store are pairwise distinct and the list priority queue is refined by "
+            "the heapq transcription; no exception on any configured packet; static-backlog fairness |W_i/w_i - W_j/w_j| <= Lmax/w_i + "
+            "Lmax/w_j; the pinned first-packet behaviour refuted. All positive weight/vtick tables, rates > 0, all flow->class maps, "
+            "all admissible executions. Models replayed on 400 (quick) / 8000 (thorough) real executions per run incl. two instances in "
+            "one Environment and the heapq transcription against CPython's heapq.",
+            "Full after 5 fix: commits (438d379, d1c8660, 69e89c0, 42d7aff, d0d3d61). Float rounding outside (85% of WFQ cases and all "
+            "VC cases are exact by construction, the rest compare vtime/stamps within 1e-9 with order/timing exact). 'The scheduler "
+            "empties' is read as: run() resumes after a transmission and finds nothing held.",
+            "DESIGN.md section 4 C14, section 8"),
+    "C15": ("RR/WRR (Props/C15_RR.v, 6 theorems): the whole visit sequence conforms to the cyclic walk over the classes in declaration order "
+            "with the per-visit allowance (1 resp. up to weight), a class is skipped only if it holds nothing, transmission starts follow "
+            "the served visits. DRR (Props/C15_DRR.v, 6 theorems): quantum = 1500*w/min w; the visit rule as a refinement to a "
+            "specification automaton (quantum added iff the class holds a packet, heads sent while covered and debited, unaffordable head "
+            "parked, credit reset when the class empties); credit in [0, Q + Lmax) in every reachable state; the long-run fairness bound "
+            "|S_i/Q_i - S_j/Q_j| < 4 + 3*Lmax*(1/Q_i + 1/Q_j) over any period in which both classes stay backlogged — proved in full. "
+            "All weight tables, rates > 0, all admissible executions; 360 (quick) / 9000 (thorough) replayed executions per run.",
+            "Full. DRR reading of 'the class's queue empties': class_count == 0 when run() resumes after a transmission. Sizes > 0. "
+            "Repair: b2bc02b.",
+            "DESIGN.md section 4 C15, section 8"),
     "C06": ("15 theorems (C06_users_le_capacity, queue_sorted, rank_meaning, grant_is_head, no_overtaking, free_slot_has_release, "
             "no_idle_slot_at_advance, release_idempotent, release_twice, preempt_call, victim_is_worst_ranked, preempt_request, "
             "evictions_strict, only_preemptive_evicts, users_have_usage_since) hold for Resource/PriorityResource/PreemptiveResource of "
@@ -93,11 +177,47 @@ CHECKS = {
             "process in the same instant is not displaced (non-preemptive). Defect repaired: /repo 0e96376 (SP served one packet per "
             "class per pass).",
             "DESIGN.md section 4 C13, section 8"),
-    "C16": ("ACK clause: C16_ack_is_prefix / C16_ack_monotone hold for every arrival sequence (any order, duplicates, gaps, missing first "
-            "segment) of the Gallina model of TCPSink; the model is compared with the real TCPSink on 1000 (quick) / 20000 (thorough) "
-            "generated arrival sequences per run; the pre-fix ACK choice is refuted by a witness (C16_ack_refuted_before_fix).",
-            "PARTIAL: see the evidence file's `partial` list for clauses not carried by a theorem (sender reliability/liveness).",
+    "C16": ("15 theorems: the ACK is the contiguous received prefix and monotone for every arrival sequence (C16_ack_is_prefix, "
+            "C16_ack_monotone, refutation of the pinned ACK choice); the repaired sender never raises for every Ack/Expire/StoreCb/Wake "
+            "history; in every reachable state of the closed loop (sender, sink, two constant-delay wires, any finite drop sets per "
+            "direction, Reno/CUBIC) nothing raises, last_ack <= sink prefix <= next_seq, last_ack is monotone, an unfinished transfer has "
+            "an armed timer event or a runnable sender on the agenda (cannot stop early), and a quiescent loop has delivered everything; a "
+            "retransmission happens only at the segment's own timer expiry or at a third-or-later duplicate ACK. 1000 (quick) / 20000 "
+            "(thorough) cases per run: sink sequences, whole closed-loop runs of the real sender/sink/wires compared event by event and "
+            "instant by instant, sender-alone histories.",
+            "PARTIAL: (1) 'finitely many drops => eventually complete' is liveness: the safety half is proved (cannot go quiescent early; "
+            "quiescent => complete), termination is tested by runs to quiescence on random drop patterns. (2) 'loss-free and RTT < RTO => "
+            "no segment sent twice' is monitored and covered by the exact loop correspondence; proved is only the cause of a "
+            "retransmission. Trusted besides the common base: Timer per C19, kernel order per C01, CUBIC cnt oracle. Repairs: 4cddda4 "
+            "(sink), 5f98ada, 5f6e664 (sender).",
             "DESIGN.md section 4 C16, section 8"),
+    "C17": ("25 theorems about the Gallina model of TCPPacketGenerator.put/timeout_callback/run and CongestionControl/TCPReno/TCPCubic: "
+            "send guard and consecutive MSS numbering, window respected at every emission, only a wake-up sends new data, Reno/CUBIC ACK "
+            "rules, early duplicates, fast retransmit (ssthresh = max(2 MSS, cwnd/2), cwnd = ssthresh + 3 MSS), further duplicates, "
+            "deflate-then-count and no deflation before the third duplicate (the pinned behaviour refuted), timeout rule, RTO formula "
+            "and doubling, cwnd >= MSS over all histories, error states unreachable — each as an equation between pre- and post-state "
+            "including what does not change; plus 5 bridging lemmas for CongestionControl method bodies TRANSLATED from /repo on every run "
+            "(second tie, fail closed). Every transition of 700 (quick) / 12000 (thorough) scripted histories on the real sender is "
+            "replayed in the model.",
+            "PARTIAL for CUBIC: the cubic / TCP-friendly growth (libm **) is an input oracle (cnt); proved for CUBIC are slow start, the "
+            "counting rule, the shared loss rules and cwnd >= MSS. Float-valued fields are compared within a relative 1e-12 per "
+            "transition from the observed pre-state; theorems are over Q. The translator (props/tcp_common.translate_cc) is part of the "
+            "trusted base of this property; a harmless rewrite of a translated method makes the bridging obligations fail "
+            "(reported no-failing-input-found). Repair: eae436e.",
+            "DESIGN.md section 4 C17, section 8"),
+    "C18": ("22 theorems (Props/C18.v): FlowDemux/FIBDemux rules (empty table and no outputs included), exactly one output, switches route "
+            "by these rules; a hub repeats to all attached endpoints but the sender exactly once, through the port device when given; a "
+            "splitter hands out the original and pairwise distinct header-equal copies with independent header fields; for EVERY even "
+            "k >= 2 the fat-tree model has (k/2)^2 core, k^2/2 aggregation, k^2/2 edge switches, k^3/4 hosts, k/2 per edge switch, all "
+            "switches of degree k, and hostdist (2/4/6) is the graph distance between hosts; for ANY graph the tables of generate_fib "
+            "follow every simple path (ACK class back along the reverse) and a network of FIB switches delivers every packet to its own "
+            "flow's sink only (instantiated on fattree k). Five theorems refute the code as found. Models compared with the real classes "
+            "on 640 (quick) / 6000 (thorough) cases per run incl. FatTree(k) k <= 8 (12 thorough) neighbour list by neighbour list and "
+            "end-to-end simulations (incl. real WFQ/DRR/VirtualClock in FairPacketSwitch).",
+            "PARTIAL in one clause: that networkx.all_shortest_paths yields shortest paths is checked per run (each generated path is "
+            "validated in Coq by path_ok; C18_path_ok_shortest_partial says an accepted path is a shortest simple walk of the model), "
+            "not proved about networkx. Repairs: e4841d3, 2ad9c6f, 6208ccc, a442c71, 3ac02a4.",
+            "DESIGN.md section 4 C18, section 8"),
     "C19": ("For every admissible history of stop()/restart(tau) calls by foreign processes and by the timer's own callback, at any instants "
             "incl. the expiry instant and several per instant, one-shot and auto-restart, all positive timeouts: fires exactly at expiry / "
             "every timeout (C19_fires_at_expiry, C19_auto_restart_period), stop is final, restart re-bases to r+tau from outside and from "
